@@ -126,7 +126,7 @@ theorem rebuild_id {s : Mgr} (h : Reachable s) (addr : Nid → Nat) {i : Nid} (i
     Ids of the two managers are different name spaces: nothing is shared by construction.
     PARTIAL: formulas containing an array value are excluded (`same = false` admits no
     `ARRAY_VALUE`): the copy lists the assignments in the *target's* address order, so the
-    trees are equal only up to a permutation of the assignments (finding F35; K and S compare
+    trees are equal only up to a permutation of the assignments (finding F60; K and S compare
     that case modulo the order). -/
 theorem normalize_copy_partial {src tgt : Mgr} (hs : Reachable src) (ht : Reachable tgt) (addr : Nid → Nat)
     {i : Nid} (i0 : 0 < i) (i1 : i < src.nextId) (hn : AllNormal src addr false i) {r : Except Err Nid}
